@@ -138,7 +138,16 @@ func (lex *Lexer) readToken() []*token.Token {
 		// silently rewrote the one-symbol form into the two-symbol form --
 		// the formatter changing the program it was asked to tidy.  Found by
 		// FuzzFormatCompact on "(------ )".
-		if c, ok := lex.scanner.Peek(); !ok || unicode.IsSpace(c) || c == ')' || c == ']' {
+		//
+		// Opening brackets, quotes, strings and comments belong to the same
+		// set: nothing can be glued to the sign across them either.  They were
+		// missing too, with the same observable effect one token later:
+		// "-- []" read as the symbol "--" followed by a list, while "--[]" --
+		// the same text with the separating space removed -- lexed as NEGATIVE +
+		// NEGATIVE + BRACE_L and parsed as the TWO symbols "-" "-".  So a '-' is
+		// a sign only when what follows can actually be glued to it: a digit, a
+		// symbol start rune, or the ':' of a qualified name.
+		if c, ok := lex.scanner.Peek(); !ok || !(isDigit(c) || isWordStart(c) || c == ':') {
 			return lex.emitText(token.SYMBOL)
 		}
 		return lex.emitText(token.NEGATIVE)
